@@ -4,6 +4,11 @@
  (A) specs/Epoch.tla       implementation-shaped (step function as coded), TLC exhaustive over the configuration space
  (B) harness/areas/epoch   replays TLC's edge cover + seeded long random sequences into the real EpochNotifierPerBlock
  (C) specs/EpochTrace.tla  property monitor; TLC judges every recorded trace
+
+ Composition (the epoch clock as cmd/run.go wires it):
+ (A') specs/PollEpoch.tla        BlockNotifierPolling.step + GenericSubscriberImpl fan-out + EpochNotifierPerBlock.step
+ (B') harness/areas/pollepoch    the real poller's Start loop on a scripted RPC, scripted or real fan-out, the real notifier
+ (C') specs/PollEpochTrace.tla   monitor: poller predicates + C18 on what the notifier really received
 """
 import os, sys, json, random
 sys.path.insert(0, os.path.join(os.path.dirname(os.path.abspath(__file__)), "..", "lib"))
@@ -30,6 +35,135 @@ def random_behaviours(rng, n):
     return out
 
 
+def random_compositions(rng, n):
+    out = []
+    for k in range(n):
+        N = rng.choice([1, 2, 3, 5, 10, 32])
+        S = rng.choice([0, 1, 7, 1000])
+        P = rng.randrange(0, 100)
+        real = k % 2 == 0
+        head = S + rng.choice([0, 1, 2])
+        steps, parked = [], 0
+        prev = None
+        for _ in range(rng.randrange(5, 40)):
+            x = rng.random()
+            if x < 0.12:
+                r = -1
+            elif x < 0.25:
+                r = head                                   # unchanged
+            elif x < 0.33:
+                head = max(0, head - rng.choice([1, 2, N]))  # the head goes down (another RPC node, finality tag)
+                r = head
+            else:
+                head += rng.choice([1, 1, 1, 2, N, N + 1, 2 * N + 1])
+                r = head
+            steps.append(dict(a="poll", r=r))
+            if r >= 0 and prev is not None and r != prev:
+                parked += 1
+            if r >= 0:
+                prev = r
+            elif prev is not None:
+                prev = 0                                   # the poller forgets what it saw (as coded); 0 keeps the count exact
+            while not real and parked > 0 and rng.random() < 0.7:
+                i = rng.randrange(1, parked + 1) if rng.random() < 0.3 else 1
+                steps.append(dict(a="deliver", i=i))
+                parked -= 1
+        for _ in range(parked if not real else 0):
+            steps.append(dict(a="deliver", i=1))
+        out.append(dict(n=N, s=S, p=P, real=real, steps=steps))
+    return out
+
+
+def composition(res, sc, thorough, rng, rb):
+    """the epoch clock as wired: poller + fan-out + notifier"""
+    mc = V.model_check("PollEpoch.tla", "PollEpochThorough.cfg" if thorough else "PollEpoch.cfg", sc, timeout=1800)
+    mcr = V.model_check("PollEpoch.tla", "PollEpochReorderSafe.cfg", sc, timeout=1800)
+    cex = V.model_counterexample("PollEpoch.tla", "PollEpochReorder.cfg", "AtFirstPublished", sc, timeout=900)
+    if rb is None:
+        cases, gst = V.export_cases("PollEpoch.tla", "PollEpochGen.cfg", sc, timeout=900)
+        paths = V.drop_prefixes([[c["n"], c["s"], c["p"]] + [json.dumps(x, sort_keys=True) for x in c["steps"]] for c in cases])
+        allb = [dict(n=c[0], s=c[1], p=c[2], real=False, steps=[json.loads(x) for x in c[3:]]) for c in paths]
+        # every parked event is delivered at the end, so that every publication is judged
+        n_all = len(allb)
+        behs = allb if len(allb) <= (20000 if thorough else 600) else rng.sample(allb, 20000 if thorough else 600)
+        for b in behs:
+            parked = 0
+            prev = None
+            for st in b["steps"]:
+                if st["a"] == "poll":
+                    if st["r"] >= 0 and prev is not None and st["r"] != prev:
+                        parked += 1
+                    prev = st["r"] if st["r"] >= 0 else 0
+                else:
+                    parked -= 1
+            b["steps"] = b["steps"] + [dict(a="deliver", i=1)] * max(0, parked)
+        n_edge = len(behs)
+        # the same polls through the repository's own fan-out
+        behs += [dict(b, real=True) for b in behs[:: 4]]
+        behs += random_compositions(rng, 1500 if thorough else 150)
+    else:
+        behs, n_edge, n_all, gst = rb, len(rb), len(rb), dict(distinct=0)
+    drv = V.build_driver("pollepoch")
+    bf, tf = sc.path("pbeh.json"), sc.path("ptrace.ndjson")
+    json.dump(behs, open(bf, "w"))
+    V.run_driver(drv, ["-in", bf, "-out", tf], timeout=3000)
+    info = V.validate_traces("PollEpochTrace.tla", "PollEpochTrace.cfg", tf, sc)
+    if not info["consumed_ok"]:
+        raise V.Infra("monitor did not consume the composition trace:\n" + info.get("tail", ""))
+    for v in info["violations"]:
+        b = behs[v["t"] - 1]
+        res.add_violation("composition: %s at trace %d line %d: %s" % (v["inv"], v["t"], v["l"], json.dumps(v["info"])),
+                          dict(behaviour=b, violation=v))
+    evs = V.read_ndjson(tf)
+    npoll = sum(1 for e in evs if e["ev"] == "poll")
+    nemit = sum(1 for e in evs if e["ev"] == "poll" and e["emitted"])
+    npub = sum(1 for e in evs if e["ev"] == "block" and e["pub"])
+    # how often the real fan-out completed its sends out of publication order (information)
+    reordered, cur, inreal, order = 0, [], False, []
+    for e in evs + [dict(ev="cfg", real=False)]:
+        if e["ev"] == "cfg":
+            if inreal and order != cur:
+                reordered += 1
+            cur, order, inreal = [], [], bool(e.get("real"))
+        elif e["ev"] == "poll":
+            cur += e["emitted"]
+        elif e["ev"] == "block":
+            order.append(e["b"])
+    if rb is None:
+        if nemit == 0 or npub == 0:
+            raise V.Infra("composition driver is dead: %d polls published, %d deliveries notified" % (nemit, npub))
+        # binding self-test: drop one recorded block publication of the poller -> the monitor must object
+        k = next(i for i, e in enumerate(evs) if e["ev"] == "poll" and e["emitted"])
+        start = max(i for i in range(k + 1) if evs[i]["ev"] == "cfg")
+        end = next((i for i in range(k + 1, len(evs)) if evs[i]["ev"] == "cfg"), len(evs))
+        mut = [dict(e) for e in evs[start:end]]
+        mut[k - start]["emitted"] = []
+        mf = sc.path("pmut.ndjson")
+        V.write_ndjson(mf, mut)
+        minfo = V.validate_traces("PollEpochTrace.tla", "PollEpochTrace.cfg", mf, sc)
+        if not minfo["violations"]:
+            raise V.Infra("binding self-test failed: a dropped block publication was accepted by the composition monitor")
+        selftest = "dropped block publication rejected: %s" % minfo["violations"][0]["inv"]
+    else:
+        selftest = "skipped (replay)"
+    return dict(
+        model=dict(spec="PollEpoch.tla", cfg=mc["cfg"], states=mc["distinct"], transitions=mc["generated"], depth=mc["depth"], wall_s=mc["wall_s"],
+                   constants="N in 1..3, start in {0,1,4}, P in {0,34,50,99}, heads 0..S+2N-1 moving up/down/staying, RPC errors, "
+                             "%d polls, sends completing in order" % (6 if thorough else 5),
+                   invariants=["EveryHeadChangeAnnounced", "NoSpuriousBlockEvent", "CurrentBlockIsLastObserved", "ExactlyOnceAtFirstDelivered",
+                               "StrictlyIncreasing", "NoDuplicates", "AtFirstPublished"], exhaustive=True),
+        model_reordered=dict(cfg=mcr["cfg"], states=mcr["distinct"], wall_s=mcr["wall_s"],
+                             note="sends completing in any order: everything but AtFirstPublished holds"),
+        expected_counterexample=dict(cfg="PollEpochReorder.cfg", invariant="AtFirstPublished", found=True, states_generated=cex["states_generated"],
+                                     note="information I3 (DESIGN): with two block events parked in the fan-out the newer can be received "
+                                          "first; the older is then ignored and the epoch is announced at a later block. Outside C18's "
+                                          "quantifier (increasing sequences handed to the notifier)"),
+        generator_states=gst["distinct"], edge_cover_behaviours=n_all, replayed_edge_cover=n_edge, behaviours=len(behs),
+        polls=npoll, polls_that_published=nemit, deliveries_that_notified=npub, real_fanout_traces_out_of_order=reordered,
+        monitor=dict(spec="PollEpochTrace.tla", events=len(evs), wall_s=info["wall_s"]), binding_selftest=selftest,
+        sample=behs[0])
+
+
 def body():
     res = V.Result(PROP)
     sc = V.Scratch(PROP)
@@ -45,6 +179,12 @@ def body():
         n_edge = len(behs)
         behs += random_behaviours(rng, 2000 if thorough else 200)
         rb = V.replay_behaviours()
+        if rb is not None and rb and "steps" in rb[0]:
+            comp = composition(res, sc, thorough, rng, rb)
+            res.coverage = dict(states=comp["model"]["states"], transitions=comp["model"]["transitions"],
+                                traces_validated_against_impl=len(rb), samples=rb[:1], composition=comp)
+            res.finish()
+        comp = composition(res, sc, thorough, rng, None) if rb is None else None
         if rb is not None:
             behs, n_edge = rb, len(rb)
         # (B) real code
@@ -92,11 +232,14 @@ def body():
             edge_cover_behaviours=n_edge, generator_states=gst["distinct"],
             monitor=dict(spec="EpochTrace.tla", events=len(evs), wall_s=info["wall_s"]),
             binding_selftest="dropped publication rejected: %s" % minfo["violations"][0]["inv"],
+            composition=comp,
         )
         res.assumptions = [
             "block == StartingEpochBlock is neither required nor forbidden to notify (DESIGN C18 reading)",
             "publications are observed synchronously at GenericSubscriber.Publish",
             "float threshold test equals its integer form for block numbers < 2^31 (exact for correctly rounded division)",
+            "composition: a poll is observed complete when the poller calls the RPC again; deliveries to the notifier are observed at a relay "
+            "in front of its channel (real fan-out) or made by the driver (scripted fan-out)",
         ]
     finally:
         sc.close()
